@@ -7,6 +7,36 @@ use serde_json::json;
 
 use crate::proto::{Ctx, attrs};
 
+/// The models live in a binary of their own (`harness/loomunits`, built after the harness; its source is
+/// derived from /repo's text). `Ok(n)`: n executions, all fine; `Err(msg)`: an execution failed.
+/// If the binary is missing (the derived code did not build) the shard ends as a machinery error.
+fn loomrun(args: &[String]) -> Result<usize, String> {
+    let exe = std::env::current_exe().expect("current_exe").with_file_name("loomrun");
+    if !exe.exists() {
+        println!("M the loom units were not built (harness/loomunits: the code derived from /repo's source text does not compile; see target/build_loom.log.tmp)");
+        std::process::exit(2);
+    }
+    let out = std::process::Command::new(&exe).args(args).output().expect("loomrun");
+    let so = String::from_utf8_lossy(&out.stdout).to_string();
+    if let Some(n) = so.lines().find_map(|l| l.strip_prefix("OK ")) {
+        return Ok(n.trim().parse().unwrap_or(0));
+    }
+    if let Some(m) = so.lines().find_map(|l| l.strip_prefix("FAIL ")) {
+        return Err(m.to_string());
+    }
+    let se = String::from_utf8_lossy(&out.stderr);
+    Err(format!("the model run died ({:?}): {}", out.status.code(), se.lines().rev().take(3).collect::<Vec<_>>().join(" | ")))
+}
+
+fn derived_source(unit: &str) -> String {
+    let exe = std::env::current_exe().expect("current_exe").with_file_name("loomrun");
+    std::process::Command::new(exe).args(["src", unit]).output().map(|o| String::from_utf8_lossy(&o.stdout).to_string()).unwrap_or_default()
+}
+
+fn bstr(b: Option<usize>) -> String {
+    b.map(|x| x.to_string()).unwrap_or_else(|| "none".into())
+}
+
 pub fn spinlock_shards() -> Vec<String> {
     // acquisition styles per thread: l = lock(), t = try_lock()
     ["ll", "lt", "tt", "llt", "ltt", "ttt", "lll"].iter().map(|s| format!("loom:spinlock:{s}")).collect()
@@ -18,8 +48,13 @@ pub fn run_spinlock(ctx: &mut Ctx) {
     let bound = if styles.len() >= 3 { Some(3) } else { None };
     ctx.group(&format!("loom: bucket lock, threads {styles:?} (true = try_lock), preemption bound {bound:?}"), |ctx| {
         let a = attrs(&[("kind", "loom"), ("script", "spinlock"), ("class", "mutual_exclusion")]);
-        let case = || json!({"unit": "oxidd-cache/src/util.rs RawMutex", "threads_try_lock": styles, "preemption_bound": bound, "derived_source": loomunits::SPINLOCK_SRC});
-        if let Some(n) = ctx.guarded(&a, case, || loomunits::check_spinlock(&styles, bound)) {
+        let case = || json!({"unit": "oxidd-cache/src/util.rs RawMutex", "threads_try_lock": styles, "preemption_bound": bound, "derived_source": derived_source("spinlock")});
+        let sty: String = styles.iter().map(|&t| if t { 't' } else { 'l' }).collect();
+        let r = loomrun(&["spinlock".into(), sty, bstr(bound)]);
+        if let Err(m) = &r {
+            ctx.viol(a.clone(), case(), &format!("loom model of the bucket lock: {m}"));
+        }
+        if let Ok(n) = r {
             ctx.count("evaluations", n as u64);
             ctx.count("executions", n as u64);
             ctx.count("nontrivial", n as u64);
@@ -42,8 +77,12 @@ pub fn run_substid(ctx: &mut Ctx) {
     let bound = if t * k > 4 { Some(3) } else { None };
     ctx.group(&format!("loom: substitution ids, {t} threads x {k} ids, preemption bound {bound:?}"), |ctx| {
         let a = attrs(&[("kind", "loom"), ("class", "result_depends_on_cache"), ("last_action", "new_substitution_id")]);
-        let case = || json!({"unit": "oxidd-core/src/util/substitution.rs new_substitution_id", "threads": t, "ids_per_thread": k, "preemption_bound": bound, "derived_source": loomunits::SUBST_ID_SRC});
-        if let Some(n) = ctx.guarded(&a, case, || loomunits::check_subst_ids(t, k, bound)) {
+        let case = || json!({"unit": "oxidd-core/src/util/substitution.rs new_substitution_id", "threads": t, "ids_per_thread": k, "preemption_bound": bound, "derived_source": derived_source("substid")});
+        let r = loomrun(&["substid".into(), t.to_string(), k.to_string(), bstr(bound)]);
+        if let Err(m) = &r {
+            ctx.viol(a.clone(), case(), &format!("loom model of the substitution id generator: {m}"));
+        }
+        if let Ok(n) = r {
             ctx.count("evaluations", n as u64);
             ctx.count("executions", n as u64);
             ctx.count("nontrivial", n as u64);
